@@ -964,8 +964,8 @@ impl Context {
         // Promote untyped enum values to typed in parent scope
         let mut replacements = 0;
         for (name, _) in &enum_values {
+            // The name may also belong to symbols that are not values - such as a constant buffer
             let symbols = self.scopes[parent_scope].symbols.get_mut(name).unwrap();
-            assert_eq!(symbols.len(), 1);
             for symbol in symbols {
                 if let ScopeSymbol::EnumValueUntyped(id) = symbol {
                     *symbol = ScopeSymbol::EnumValue(*id);
@@ -1048,6 +1048,20 @@ impl Context {
             }
             _ => {}
         };
+
+        // A namespace is not a value but the name can not be declared as a namespace after the enum value either
+        if let Some(symbols) = self.scopes[parent_scope].symbols.get(&name.node) {
+            if symbols
+                .iter()
+                .any(|symbol| matches!(symbol, ScopeSymbol::Namespace(_)))
+            {
+                return Err(TyperError::ValueAlreadyDefined(
+                    name.clone(),
+                    ErrorType::Unknown,
+                    ErrorType::Unknown,
+                ));
+            }
+        }
 
         // Insert the value into the enum scope
         {
